@@ -116,7 +116,7 @@ def playback(harness):
 def scenario_from(harness, vals):
     """Decode positional kani::any() values with the harness' `inputs=` list and fill its `scenario=` template."""
     src = open(os.path.join(common.KANI_DIR, harness.file)).read()
-    m = re.search(r"@harness\s+name=%s\b[^\n]*" % re.escape(harness.name), src)
+    m = re.search(r"@harness\s+name=%s\b[^\n]*" % re.escape(getattr(harness, "fn_name", harness.name)), src)
     if not m:
         return None
     line = m.group(0)
